@@ -182,6 +182,12 @@ func c15LibLib(res *lp.Result, s c15Scn) {
 		if s.comp != primitive.CompressionNone && rng.Bool() {
 			req.SetCompress(true)
 		}
+		// one exchange per connection whose bodies compress extremely well (ratios far beyond 100:1)
+		squeezed := s.comp != primitive.CompressionNone && i == 3
+		if squeezed {
+			req = frame.NewFrame(s.version, sid, &message.Query{Query: strings.Repeat("a", 100000)})
+			req.SetCompress(true)
+		}
 		if s.version.SupportsModernFramingLayout() && len(encodeEnvelope(req)) > 131071 {
 			res.Count("skipped/envelope-larger-than-a-segment") // the library does not split outgoing envelopes (out of C15's quantifier)
 			continue
@@ -202,6 +208,11 @@ func c15LibLib(res *lp.Result, s c15Scn) {
 			viol("request received by the server differs from what the client sent", t, want)
 		}
 		resp := genFrame(g, c15ResponseKinds, sid)
+		if squeezed {
+			resp = frame.NewFrame(s.version, sid, &message.RowsResult{Metadata: &message.RowsMetadata{ColumnCount: 1}, Data: message.RowSet{message.Row{make([]byte, 120000)}}})
+			resp.SetCompress(true)
+			res.Count("squeezed-bodies")
+		}
 		if exact > 0 {
 			resp = sizedEnvelope(exact, func(n int) *frame.Frame {
 				return frame.NewFrame(s.version, sid, &message.RowsResult{Metadata: &message.RowsMetadata{ColumnCount: 1}, Data: message.RowSet{message.Row{rng.Bytes(n)}}})
